@@ -125,11 +125,14 @@ type ScanRun struct {
 }
 
 type ScanRestart struct {
-	Prefix int      `json:"covered_events"` // the persisted offset is that of event number Prefix (events before it are covered)
-	Ahead  int      `json:"numbers_ahead"`  // the persisted numbers already contain this many further events
-	Cap    int      `json:"lru_cap"`
-	Max    int      `json:"max_unflushed"`
-	WSs    []uint64 `json:"workspaces"`
+	Prefix int `json:"covered_events"` // the persisted offset is that of event number Prefix (events before it are covered)
+	Ahead  int `json:"numbers_ahead"`  // the persisted numbers already contain this many further events
+	// the numbers are written, the next-offset row is not (a crash between the first numbers write and the
+	// first offset write, or writes of the offset failing since start-up): the adapter reports offset 0
+	NoOffsetRow bool     `json:"no_offset_row,omitempty"`
+	Cap         int      `json:"lru_cap"`
+	Max         int      `json:"max_unflushed"`
+	WSs         []uint64 `json:"workspaces"`
 	// observed
 	PO    uint64      `json:"persisted_offset"`
 	PN    [][3]uint64 `json:"persisted_numbers"`
@@ -137,9 +140,13 @@ type ScanRestart struct {
 }
 
 type ScanScenario struct {
-	Kind     string       `json:"kind"` // "scan"
-	Note     string       `json:"note,omitempty"`
-	Reopen   bool         `json:"reopen"` // scan through app structs built anew over the storage (no event cache)
+	Kind   string `json:"kind"` // "scan"
+	Note   string `json:"note,omitempty"`
+	Reopen bool   `json:"reopen"` // scan through app structs built anew over the storage (no event cache)
+	// the first event sits at PLog offset 0 - where a sequencer on a fresh partition puts it (no next-offset
+	// row: the adapter reports 0, Start hands out 0) - instead of istructs.FirstOffset
+	FromZero bool         `json:"first_event_at_offset_0,omitempty"`
+	Failure  string       `json:"harness_failure,omitempty"` // the case could not be run to its end: rejected by agrees and satisfies
 	Events   []*ScanEvent `json:"events"`
 	Starts   []uint64     `json:"starts"`
 	Restart  *ScanRestart `json:"restart,omitempty"`
@@ -157,6 +164,7 @@ type scanRig struct {
 	docs    map[uint64][]uint64        // per workspace: stored ids of the documents created so far
 	top     map[uint64]uint64          // per workspace: the highest id of the sequence's range recorded so far
 	singles map[uint64]map[string]bool // per workspace: singletons created so far
+	adapter isequencer.IVVMSeqStorageAdapter
 }
 
 func scanAppDef() appdef.IAppDefBuilder {
@@ -447,7 +455,7 @@ func (r *scanRig) readBack(evs []*ScanEvent) error {
 		byOff[e.Obs.Off] = e
 	}
 	seen := 0
-	err := r.app.Events().ReadPLog(context.Background(), scanPart, istructs.FirstOffset, istructs.ReadToTheEnd,
+	err := r.app.Events().ReadPLog(context.Background(), scanPart, istructs.NullOffset, istructs.ReadToTheEnd,
 		func(off istructs.Offset, pe istructs.IPLogEvent) error {
 			e := byOff[uint64(off)]
 			if e == nil {
@@ -484,23 +492,56 @@ func (r *scanRig) seqStorage() (isequencer.ISeqStorage, error) {
 	if err != nil {
 		return nil, err
 	}
-	return appparts.VerifNewSeqStorage(istructs.ClusterApps[scanApp], scanPart, r.app.Events(), r.app.AppDef(),
-		vvmstorage.NewVVMSeqStorageAdapter(stg)), nil
+	r.adapter = vvmstorage.NewVVMSeqStorageAdapter(stg)
+	return appparts.VerifNewSeqStorage(istructs.ClusterApps[scanApp], scanPart, r.app.Events(), r.app.AppDef(), r.adapter), nil
 }
 
 // ---- execution ----
 
-func executeScan(sc *ScanScenario) (kit.Case, error) {
+// executeScan never fails: whatever keeps the case from running to its end (a sequencer that does not start
+// a transaction, a panic, an event the real builders refuse) is the outcome of this case - a case that
+// `agrees` and `satisfies` reject, with the text in its description - and the run goes on.
+func executeScan(sc *ScanScenario) (c kit.Case) {
+	sc.Failure = ""
+	defer func() {
+		if rec := recover(); rec != nil {
+			passthrough.Store(false)
+			c = brokenScan(sc, fmt.Sprintf("panic: %v", rec))
+		}
+	}()
+	c, err := runScan(sc)
+	if err != nil {
+		c = brokenScan(sc, err.Error())
+	}
+	return c
+}
+
+func brokenScan(sc *ScanScenario, why string) kit.Case {
+	sc.Failure = firstLine(why)
+	keyb, _ := json.Marshal(struct {
+		E []*ScanEvent
+		S []uint64
+		R *ScanRestart
+	}{sc.Events, sc.Starts, sc.Restart})
+	return kit.Case{Coq: "CBroken", Key: "scan-broken|" + string(keyb), Nontrivial: true, Desc: sc,
+		Tags: []string{"harness:case-did-not-complete", "kind:scan"}}
+}
+
+func runScan(sc *ScanScenario) (kit.Case, error) {
 	r, err := newScanRig()
 	if err != nil {
 		return kit.Case{}, err
+	}
+	base := uint64(istructs.FirstOffset)
+	if sc.FromZero {
+		base = 0
 	}
 	wlog := map[uint64]uint64{}
 	for i, ev := range sc.Events {
 		if _, ok := wlog[ev.WS]; !ok {
 			wlog[ev.WS] = uint64(istructs.FirstOffset)
 		}
-		if err := r.put(ev, uint64(i)+1, wlog[ev.WS]); err != nil {
+		if err := r.put(ev, base+uint64(i), wlog[ev.WS]); err != nil {
 			return kit.Case{}, fmt.Errorf("event %d: %w", i, err)
 		}
 		wlog[ev.WS]++
@@ -535,7 +576,7 @@ func executeScan(sc *ScanScenario) (kit.Case, error) {
 		sc.Runs = append(sc.Runs, run)
 	}
 	if sc.Restart != nil {
-		if err := r.restart(sc, ss); err != nil {
+		if err := r.restart(sc, ss, base); err != nil {
 			return kit.Case{}, err
 		}
 	}
@@ -544,9 +585,12 @@ func executeScan(sc *ScanScenario) (kit.Case, error) {
 
 // restart: persist a (numbers, next offset) pair that covers the first Prefix events, start a real
 // sequencer on it over the real scan, draw numbers
-func (r *scanRig) restart(sc *ScanScenario, ss isequencer.ISeqStorage) error {
+func (r *scanRig) restart(sc *ScanScenario, ss isequencer.ISeqStorage, base uint64) error {
 	rs := sc.Restart
 	n := len(sc.Events)
+	if rs.NoOffsetRow {
+		rs.Prefix = 0 // no offset row: nothing is covered
+	}
 	if rs.Prefix > n {
 		rs.Prefix = n
 	}
@@ -578,8 +622,15 @@ func (r *scanRig) restart(sc *ScanScenario, ss isequencer.ISeqStorage) error {
 		batch = append(batch, isequencer.SeqValue{Key: isequencer.NumberKey{WSID: isequencer.WSID(x[0]), SeqID: isequencer.SeqID(x[1])}, Value: isequencer.Number(x[2])})
 	}
 	rs.PO = 0
-	if rs.Prefix+rs.Ahead > 0 {
-		rs.PO = uint64(rs.Prefix) + 1
+	switch {
+	case rs.Prefix+rs.Ahead == 0:
+		rs.NoOffsetRow = true // nothing at all is persisted
+	case rs.NoOffsetRow:
+		if err := r.adapter.PutNumbers(istructs.ClusterApps[scanApp], batch); err != nil {
+			return err
+		}
+	default:
+		rs.PO = base + uint64(rs.Prefix)
 		if err := ss.WriteValuesAndNextPLogOffset(batch, isequencer.PLogOffset(rs.PO)); err != nil {
 			return err
 		}
@@ -805,6 +856,9 @@ func scanCase(sc *ScanScenario) kit.Case {
 	if len(wss) > 1 {
 		tags["scan:several-workspaces"] = true
 	}
+	if sc.FromZero {
+		tags["scan:first-event-at-offset-0"] = true
+	}
 	runs := make([]string, len(sc.Runs))
 	for i, run := range sc.Runs {
 		ds := make([]string, len(run.Delivered))
@@ -812,13 +866,16 @@ func scanCase(sc *ScanScenario) kit.Case {
 			ds[j] = fmt.Sprintf("(%d, %s)", d.Off, triples(d.Batch))
 		}
 		runs[i] = fmt.Sprintf("(%d, %s)", run.Start, kit.List(ds))
-		if run.Start > 1 {
+		if run.Start > 1 && int(run.Start) <= len(sc.Events) {
 			tags["scan:from-the-middle"] = true
 		}
 	}
 	rs := "None"
 	if sc.Restart != nil {
 		tags["scan:restart"] = true
+		if sc.Restart.NoOffsetRow {
+			tags["scan:restart-without-offset-row"] = true
+		}
 		tags[fmt.Sprintf("max:%d", sc.Restart.Max)] = true
 		rs = fmt.Sprintf("(Some (mkSRestart %d %s %s))", sc.Restart.PO, triples(sc.Restart.PN), triples(sc.Restart.Calls))
 	}
@@ -845,7 +902,8 @@ func scanCase(sc *ScanScenario) kit.Case {
 		S []uint64
 		R *ScanRestart
 		O bool
-	}{sc.Events, sc.Starts, sc.Restart, sc.Reopen})
+		Z bool
+	}{sc.Events, sc.Starts, sc.Restart, sc.Reopen, sc.FromZero})
 	nontrivial := len(sc.Events) >= 2 && len(sc.Runs) > 0
 	return kit.Case{
 		Coq:        fmt.Sprintf("CScan %s %s %s", kit.List(evs), kit.List(runs), rs),
